@@ -163,27 +163,46 @@ def zoneOk : Bytes → Bool
     | _, _ => false
   | _ => false
 
-/-- `parseUTCTime` then `Format("2006-01-02T15:04Z")` -/
+/-- the zone suffix as seconds east of UTC (only called on a suffix `zoneOk` accepts) -/
+def zoneOff : Bytes → Int
+  | [s, h1, h2, m1, m2] =>
+    match twoDigits h1 h2, twoDigits m1 m2 with
+    | some h, some m => if s = 45 then -(((h * 60 + m) * 60 : Nat) : Int) else (((h * 60 + m) * 60 : Nat) : Int)
+    | _, _ => 0
+  | _ => 0
+
+/-- the text of a parsed UTCTime.  `Gen.asn1UtcShowsSeconds = false`: `Format("2006-01-02T15:04Z")` — the clock of the
+    time's own zone to the minute, followed by a literal Z.  `true`: `UTC().Format("2006-01-02T15:04:05Z")` — the UTC
+    instant to the second (for the DER form, zone `Z`, the digits as encoded plus the seconds, 00 when absent). -/
+def utcFinish (year mo d h mi s : Nat) (z : Bytes) : Bytes :=
+  let minuteText := Civil.pad 4 year ++ [45] ++ Civil.pad 2 mo ++ [45] ++ Civil.pad 2 d ++ [84] ++ Civil.pad 2 h ++ [58] ++
+    Civil.pad 2 mi
+  if Gen.asn1UtcShowsSeconds = false then minuteText ++ [90]
+  else if z = [90] then minuteText ++ [58] ++ Civil.pad 2 s ++ [90]
+  else
+    let unix : Int := Civil.daysFromCivil year mo d * 86400 + ((h * 3600 + mi * 60 + s : Nat) : Int) - zoneOff z
+    Civil.fmtDate (unix / 86400) ++ [84] ++ Civil.fmtClock (unix % 86400).toNat ++ [90]
+
+/-- `parseUTCTime` then `Format` -/
 def utcTimeValue (c : Bytes) : Option Bytes :=
   match c with
   | y1 :: y2 :: mo1 :: mo2 :: d1 :: d2 :: h1 :: h2 :: mi1 :: mi2 :: rest =>
     match twoDigits y1 y2, twoDigits mo1 mo2, twoDigits d1 d2, twoDigits h1 h2, twoDigits mi1 mi2 with
     | some yy, some mo, some d, some h, some mi =>
-      let secOk : Option Bytes :=          -- remaining after optional seconds
+      let secOk : Option (Nat × Bytes) :=          -- seconds (0 when absent) and what remains after them
         match rest with
         | s1 :: s2 :: z =>
-          if zoneOk rest then some rest
+          if zoneOk rest then some (0, rest)
           else match twoDigits s1 s2 with
-            | some s => if s < 60 then some z else none
+            | some s => if s < 60 then some (s, z) else none
             | none => none
-        | _ => some rest
+        | _ => some (0, rest)
       match secOk with
-      | some z =>
+      | some (s, z) =>
         let parsedYear := if yy ≥ 69 then 1900 + yy else 2000 + yy
         let year := if parsedYear ≥ 2050 then parsedYear - 100 else parsedYear
         if zoneOk z ∧ 1 ≤ mo ∧ mo ≤ 12 ∧ 1 ≤ d ∧ d ≤ daysInMonth parsedYear mo ∧ h < 24 ∧ mi < 60 then
-          some (Civil.pad 4 year ++ [45] ++ Civil.pad 2 mo ++ [45] ++ Civil.pad 2 d ++ [84] ++ Civil.pad 2 h ++ [58] ++
-                Civil.pad 2 mi ++ [90])
+          some (utcFinish year mo d h mi s z)
         else none
       | none => none
     | _, _, _, _, _ => none
